@@ -32,6 +32,8 @@ pub struct Nlp {
     nump: u8,
 
     /// Node, lap and position of each player.
-    #[br(count = nump)]
+    // 6 bytes per player: LFS adds 2 bytes when needed to keep the size a multiple of 4
+    #[br(count = nump, pad_after = (nump as usize % 2) * 2)]
+    #[bw(pad_after = (info.len() % 2) * 2)]
     pub info: Vec<NodeLapInfo>,
 }
